@@ -573,6 +573,21 @@ func genC12(g *gen) {
 		n = 40
 	}
 	modes := []string{"safe", "unsafe", "reuse", "incr", "reuse=a"}
+	// Apply in place with an increment tensor (`UseUnsafe(), WithIncr(d)`): the `MapIncr*` / `MapIncrErr*` kernels
+	for _, op := range []string{"apply", "applyerr"} {
+		for _, dt := range append(append([]string{}, numDtypes...), "b", "str") {
+			for _, lay := range []string{"contig", "sliced", "lazyT"} {
+				var steps []string
+				nv := 0
+				steps = append(steps, "vset=2")
+				sh := []int{2, 3}
+				a := g.operand(&steps, &nv, dt, sh, lay)
+				d := g.operand(&steps, &nv, dt, sh, "contig")
+				steps = append(steps, fmt.Sprintf("un %s $%d unsafe incr=$%d", op, a, d), fmt.Sprintf("dump $%d", nv), fmt.Sprintf("dump $%d", a), fmt.Sprintf("dump $%d", d), "dump $0")
+				g.emit(steps...)
+			}
+		}
+	}
 	for _, op := range unaryOps {
 		for _, dt := range append(append([]string{}, numDtypes...), "b", "str") {
 			for _, mode := range modes {
